@@ -12,6 +12,7 @@ import OFV.Proofs.C18Tpb
 import OFV.Proofs.C18Partition
 import OFV.Proofs.C18Pauli
 import OFV.Proofs.C18Async
+import OFV.Proofs.C18Pws4
 
 namespace OFV.C18
 open OFV.Model.C18 OFV.Spec.C18 OFV.Proofs.C18
@@ -103,6 +104,24 @@ theorem binary_partition_spec (l : List Nat) (hnd : l.Nodup) (h2 : 2 ≤ l.lengt
 example : ∃ ys, binaryPartition [4, 7, 1, 9, 3] none = some ys ∧
     splitsAll [4, 7, 1, 9, 3] 2 (ys.map (fun p => [p.1, p.2])) = true :=
   binary_partition_spec _ (by decide) (by decide)
+
+/-- `pair_within_simultaneously`, every number of labels: for every four labels at least one of their
+three splits into two pairs is co-scheduled (both pairs occur in the same yield).  Induction over the
+levels of `_gen_partitions`: four labels in a part are either separated 2 + 2 by its halves (first
+stage of the next level: all combinations of rounds of two sibling parts occur, by the loop bounds), or
+3 + 1 (second stage: `pair_within` over the parts pairs the two parts, and
+`_gen_pairings_between_partitions` combines a round of a half with all cross pairs of the other
+halves — going down one level while the three labels stay in one half), or they stay together and the
+argument repeats one level down.
+Also part of the Spec predicate `quadsCovered` and still open: every yield is a partial matching
+(`pws_valid`), and the binned / symmetric variants. -/
+theorem pws_covers (labels : List L) (hl : labels.Nodup) (hn : none ∉ labels) (a b c d : L)
+    (hnd : [a, b, c, d].Nodup) (hmem : ∀ s ∈ [a, b, c, d], s ∈ labels) :
+    quadOk (pairWithinSimultaneously labels) a b c d = true :=
+  OFV.Proofs.C18Pws.pws_covers labels hl hn a b c d hnd hmem
+
+example : quadOk (pairWithinSimultaneously ((List.range 9).map some)) (some 0) (some 3) (some 5) (some 8) = true :=
+  pws_covers _ (by decide) (by decide) _ _ _ _ (by decide) (by decide)
 
 /-- `_asynchronous_iter`, padded (general) branch, any number of iterators of any lengths: any two
 results of two different iterators occur together in some yield.  The index pattern `(j·k + l) mod L'`
